@@ -57,8 +57,9 @@ def plant_clash(rng, recs):
 class C04(ProgramProperty):
     id = "C04"
     theorems = ["C04_record", "C04_iff", "C04_which", "C04_listing", "C04_owner", "C04_bimap", "C04_loader_prefix_map",
-                "C04_loader_priority"]
-    lean_modules = ["CuriesVerif.Properties.C04"]
+                "C04_loader_priority", "C04_advertised_prefixes", "C04_advertised_canonical", "C04_advertised_uri",
+                "C04_advertised_uri_prefixes"]
+    lean_modules = ["CuriesVerif.Properties.C04", "CuriesVerif.Properties.Advertised"]
     rule = ("one case = one record collection, valid (60%, up to 12 records: no false rejections) or with one or two "
             "planted clashes (canonical-canonical, canonical-synonym, synonym-synonym on the CURIE side, the URI side "
             "or both; a record listing its own canonical value as synonym), in shuffled order, sent through "
@@ -94,6 +95,13 @@ class C04(ProgramProperty):
                  {"op": "dups", "records": recs}]
         steps += [q(0, "records"), q(0, "bimap"), q(0, "reverse_bimap"), q(0, "get_prefixes", s=True),
                   q(0, "get_uri_prefixes", s=True), q(0, "prefix_map"), q(0, "reverse_prefix_map")]
+        # what the converter advertises is what it resolves (C04_advertised_*): every name of the collection, and a
+        # neighbour of each that is (usually) not registered, is fed back to standardize_prefix / parse_uri
+        steps.append(q(0, "get_prefixes"))
+        for name in self.probe_names(recs, "p", "ps"):
+            steps.append(q(0, "standardize_prefix", name))
+        for name in self.probe_names(recs, "u", "us"):
+            steps.append(q(0, "parse_uri", name))
         # the loaders, on the projections they can express
         pm = []
         seen = set()
@@ -165,9 +173,43 @@ class C04(ProgramProperty):
                 out.append(st["op"] + ":" + ("ok" if v is None else v.get("e", "?")))
         return out
 
+    @staticmethod
+    def probe_names(recs, canon, syn):
+        names = []
+        for rr in recs:
+            for x in [rr[canon]] + rr[syn]:
+                x = uncps(x)
+                for y in (x, x + "x", x[:-1]):
+                    if y not in names:
+                        names.append(y)
+        return names[:40]
+
     def laws(self, case, impl):
         g = Getter(case, impl)
         fails = []
+        # C04_advertised_prefixes / _canonical / _uri_prefixes, evaluated on the implementation's own answers
+        gp, gpc, gu = g("get_prefixes", s=True), g("get_prefixes"), g("get_uri_prefixes", s=True)
+        recs = next((st["records"] for st in case["steps"] if st["op"] == "init" and st.get("dst") == 0), [])
+        if have(gp, gpc) and isinstance(gp, list) and isinstance(gpc, list):
+            for name in self.probe_names(recs, "p", "ps"):
+                sp = g("standardize_prefix", name)
+                if not have(sp) or is_exc(sp):
+                    continue
+                if (name in gp) != (sp is not None):
+                    fails.append(f"get_prefixes(include_synonyms=True) {'lists' if name in gp else 'does not list'} {name!r} "
+                                 f"but standardize_prefix answers {sp!r}")
+                if (name in gpc) != (sp == name):
+                    fails.append(f"get_prefixes() {'lists' if name in gpc else 'does not list'} {name!r} "
+                                 f"but standardize_prefix answers {sp!r}")
+        if have(gu) and isinstance(gu, list):
+            for name in self.probe_names(recs, "u", "us"):
+                pu = g("parse_uri", name)
+                if not have(pu) or is_exc(pu):
+                    continue
+                consumed = isinstance(pu, tuple) and pu[1] == ""
+                if (name in gu) != consumed:
+                    fails.append(f"get_uri_prefixes(include_synonyms=True) {'lists' if name in gu else 'does not list'} "
+                                 f"{name!r} but parse_uri answers {pu!r}")
         bm, rbm = g("bimap"), g("reverse_bimap")
         if have(bm, rbm) and isinstance(bm, dict) and isinstance(rbm, dict):
             if {v: k for k, v in bm.items()} != rbm or len(set(bm.values())) != len(bm):
